@@ -119,7 +119,7 @@ def op_coq(r, tb):
     if op == 'forget': return '(OForget %d)' % r['ino']
     if op == 'batch_forget': return '(OBatchForget %d %d)' % (r['ino'], r['ino2'])
     if op == 'getattr': return '(OGetattr %d)' % r['ino']
-    if op == 'setattr': return '(OSetattr %d %d %d)' % (r['ino'], r['auid'], r['agid'])
+    if op == 'setattr': return '(OSetattr %d %d %d %d)' % (r['ino'], r['auid'], r['agid'], r['size'])     # size = FATTR_* valid bits
     if op == 'rename': return '(ORename %d %s %d %s)' % (r['ino'], name_coq(r['name']), r['ino2'], name_coq(r['name2']))
     if op == 'link': return '(OLink %d %d %s)' % (r['ino'], r['ino2'], name_coq(r['name']))
     if op in ('readdir', 'readdirplus'): return '(OReaddir %s %d %d %d %d%%nat)' % ('true' if op == 'readdirplus' else 'false', r['ino'], r['size'], r['offset'], r['limit'])
@@ -334,7 +334,7 @@ def check_model(name, cases, ev, broken, shard=40, max_report=3):
 def describe_disagreement(name, case, step_i):
     d = {'kind': 'correspondence', 'name': name, 'step': step_i}
     if step_i is not None and step_i < len(case.steps):
-        vals, _ = coq_eval_values('vfs_dis', COQ_HEADER, [case.coq_model_obs(step_i)], shard=1)
+        vals, _ = coq_eval_values('vfs_dis_' + re.sub(r'\W', '_', name)[:12] + '_%d' % os.getpid(), COQ_HEADER, [case.coq_model_obs(step_i)], shard=1)
         d['step_input'] = step_tok(case.steps[step_i]); d['implementation'] = case.obs[step_i]['raw']
         d['implementation_flat'] = case.flat[step_i]; d['model'] = vals[0]
         d['case'] = case.replay_obj(step_i)
@@ -342,6 +342,8 @@ def describe_disagreement(name, case, step_i):
 
 # ------------------------------------------------------------------ adaptive history generator
 INO_EDGE = [0, 1, 2, 3, MAX_INO - 1, MAX_INO, MAX_INO + 1, (1 << 63), TWO64 - 1]
+FATTR_MODE, FATTR_UID, FATTR_GID, FATTR_SIZE = 1, 2, 4, 8
+SETATTR_VALID = [FATTR_UID, FATTR_GID, FATTR_UID | FATTR_GID, 0, FATTR_UID | FATTR_MODE, FATTR_GID | FATTR_SIZE, FATTR_UID | FATTR_GID | FATTR_MODE | FATTR_SIZE, FATTR_MODE | FATTR_SIZE]
 OPT_BITS = [1, 8, 32, 2048, 4096, 8192, 16384, 32768, 65536, 131072, 262144, 4194304, 8388608, 16777216, 33554432, 268435456, 8589934592]
 
 class HistoryGen:
@@ -448,6 +450,7 @@ class HistoryGen:
         d = dict(uid=self.uid(), gid=self.uid(), ino2=ino2, name=self.name(), name2=self.name() if self.rng.random() < 0.3 else ('norm', 9),
                  auid=self.uid(), agid=self.uid(), size=self.rng.choice([4096, 4096, 0, 1]), offset=self.rng.choice([0, 0, 0, 1, 2, 7]),
                  limit=self.rng.choice([100, 100, 0, 1, 2]), ans=a)
+        if op == 'setattr': d['size'] = self.rng.choice(SETATTR_VALID)
         d.update(kw)
         st = mk_req(op, ino, **d)
         o = self.c.do(st)
@@ -481,7 +484,7 @@ def replay_generic(prop, path, features=None):
     exit 1 when the recorded (failing) observations are reproduced, 0 when the implementation now answers differently."""
     d = json.load(open(path))
     items = d.get('failing') or [b for b in d.get('broken', []) if isinstance(b, dict) and b.get('case')]
-    ok, out, bindir = cargo_build(['vfs'], features=features)
+    ok, out, bindir = cargo_build(['vfs'], features=['persist'])      # one feature set for C07/C14/C19: they share the binary
     if not ok:
         print(out[-2000:]); return 2
     rc = 0
